@@ -69,5 +69,6 @@ func main() {
 	genTransitions(pkg)
 	genDecisions(pkg)
 	genLocks(pkg)
+	genPaths(pkg)
 	genAccess(pkgs)
 }
